@@ -1,6 +1,7 @@
 // driver: algorithm.hpp / numeric.hpp over pointer iterators (C06)
 #include <etl/algorithm.hpp>
 #include <etl/functional.hpp>
+#include <etl/iterator.hpp>
 #include <etl/numeric.hpp>
 #include <etl/utility.hpp>
 #define VF_E extern "C"
@@ -24,6 +25,37 @@ struct gen1 { // generator: next, next+1, ...
     constexpr auto operator()() -> uint { return next++; }
 };
 struct pii { int* a; int* b; };
+
+// index iterator (random access): the position is an integer member, the base pointer never changes.  The unbounded
+// contract groups of the WRITING algorithms instantiate tetl with this iterator: a loop contract havocs what the loop
+// assigns; a havocked raw pointer makes CBMC's symbolic execution dereference it over every address-taken object
+// (each store then updates every such object: the formula explodes), a havocked integer index keeps the base precise.
+template <typename T>
+struct idx {
+    using iterator_category = etl::random_access_iterator_tag;
+    using value_type        = T;
+    using difference_type   = long;
+    using pointer           = T*;
+    using reference         = T&;
+    T* base;
+    long i;
+    constexpr auto operator*() const -> T& { return base[i]; }
+    constexpr auto operator[](long n) const -> T& { return base[i + n]; }
+    constexpr auto operator++() -> idx& { ++i; return *this; }
+    constexpr auto operator--() -> idx& { --i; return *this; }
+    constexpr auto operator++(int) -> idx { auto t = *this; ++i; return t; }
+    constexpr auto operator--(int) -> idx { auto t = *this; --i; return t; }
+    constexpr auto operator+=(long n) -> idx& { i += n; return *this; }
+    constexpr auto operator-=(long n) -> idx& { i -= n; return *this; }
+    friend constexpr auto operator+(idx a, long n) -> idx { return idx{a.base, a.i + n}; }
+    friend constexpr auto operator-(idx a, long n) -> idx { return idx{a.base, a.i - n}; }
+    friend constexpr auto operator-(idx a, idx b) -> long { return a.i - b.i; }
+    friend constexpr auto operator==(idx a, idx b) -> bool { return a.base == b.base && a.i == b.i; }
+    friend constexpr auto operator!=(idx a, idx b) -> bool { return !(a == b); }
+    friend constexpr auto operator<(idx a, idx b) -> bool { return a.i < b.i; }
+};
+using it  = idx<int>;
+using uit = idx<uint>;
 
 // non-modifying
 VF_E int* find_int(int* f, int* l, int const& v) { return etl::find(f, l, v); }
@@ -98,4 +130,33 @@ VF_E uint* adjacent_difference_u(uint* f, uint* l, uint* d) { return etl::adjace
 VF_E void iota_u(uint* f, uint* l, uint v) { etl::iota(f, l, v); }
 VF_E uint reduce_u(uint* f, uint* l, uint init) { return etl::reduce(f, l, init); }
 VF_E uint reduce0_u(uint* f, uint* l) { return etl::reduce(f, l); }
+
+// the same writing algorithms over the index iterator (contract groups)
+VF_E void x_for_each(it const& f, it const& l) { (void)etl::for_each(f, l, mut1{}); }
+VF_E void x_copy(it const& f, it const& l, it const& d, it* o) { *o = etl::copy(f, l, d); }
+VF_E void x_copy_if(it const& f, it const& l, it const& d, it* o) { *o = etl::copy_if(f, l, d, pred3{}); }
+VF_E void x_copy_n(it const& f, long n, it const& d, it* o) { *o = etl::copy_n(f, n, d); }
+VF_E void x_copy_backward(it const& f, it const& l, it const& d, it* o) { *o = etl::copy_backward(f, l, d); }
+VF_E void x_move(it const& f, it const& l, it const& d, it* o) { *o = etl::move(f, l, d); }
+VF_E void x_move_backward(it const& f, it const& l, it const& d, it* o) { *o = etl::move_backward(f, l, d); }
+VF_E void x_fill(it const& f, it const& l, int const& v) { etl::fill(f, l, v); }
+VF_E void x_fill_n(it const& f, long n, int const& v, it* o) { *o = etl::fill_n(f, n, v); }
+VF_E void x_generate(uit const& f, uit const& l, uint start) { etl::generate(f, l, gen1{start}); }
+VF_E void x_generate_n(uit const& f, long n, uint start, uit* o) { *o = etl::generate_n(f, n, gen1{start}); }
+VF_E void x_transform1(it const& f, it const& l, it const& d, it* o) { *o = etl::transform(f, l, d, op1{}); }
+VF_E void x_transform2(it const& f1, it const& l1, it const& f2, it const& d, it* o) { *o = etl::transform(f1, l1, f2, d, op2{}); }
+VF_E void x_replace(it const& f, it const& l, int const& ov, int const& nv) { etl::replace(f, l, ov, nv); }
+VF_E void x_replace_if(it const& f, it const& l, int const& nv) { etl::replace_if(f, l, pred3{}, nv); }
+VF_E void x_swap_ranges(it const& f1, it const& l1, it const& f2, it* o) { *o = etl::swap_ranges(f1, l1, f2); }
+VF_E void x_reverse(it const& f, it const& l) { etl::reverse(f, l); }
+VF_E void x_reverse_copy(it const& f, it const& l, it const& d, it* o) { *o = etl::reverse_copy(f, l, d); }
+VF_E void x_remove(it const& f, it const& l, int const& v, it* o) { *o = etl::remove(f, l, v); }
+VF_E void x_remove_if(it const& f, it const& l, it* o) { *o = etl::remove_if(f, l, pred3{}); }
+VF_E void x_remove_copy(it const& f, it const& l, it const& d, int const& v, it* o) { *o = etl::remove_copy(f, l, d, v); }
+VF_E void x_remove_copy_if(it const& f, it const& l, it const& d, it* o) { *o = etl::remove_copy_if(f, l, d, pred3{}); }
+VF_E void x_unique(it const& f, it const& l, it* o) { *o = etl::unique(f, l); }
+VF_E void x_unique_copy(it const& f, it const& l, it const& d, it* o) { *o = etl::unique_copy(f, l, d); }
+VF_E void x_partial_sum(uit const& f, uit const& l, uit const& d, uit* o) { *o = etl::partial_sum(f, l, d); }
+VF_E void x_adjacent_difference(uit const& f, uit const& l, uit const& d, uit* o) { *o = etl::adjacent_difference(f, l, d); }
+VF_E void x_iota(uit const& f, uit const& l, uint v) { etl::iota(f, l, v); }
 } // namespace vf
